@@ -18,8 +18,9 @@ V1(u) == V1s(u) \cup Containers(Keys, 2, V0s(u))
 Wrap(S) == {ListV(<<x>>) : x \in S} \cup {TupleV(<<x>>) : x \in S} \cup {ObjV(1, <<x>>) : x \in S}
            \cup {DictV(<<k>>, <<x>>) : k \in WrapKeys, x \in S}
 V2(u) == V1(u) \cup Wrap(IF Deep THEN V1(u) ELSE V1s(u))
-\* thorough: a third level over the one-element values, and mixed pairs [x, leaf] / {k: x, 31: leaf}
-V3(u) == V2(u) \cup Wrap(Wrap(V1s(u)))
+\* thorough: mixed pairs [x, leaf] / (leaf, x) / {k: x, 31: leaf}, and a third level over small values
+Small(u) == V0s(u) \cup Containers({31, 32, 35, 41}, 1, V0s(u))
+V3(u) == V2(u) \cup Wrap(Wrap(Small(u)))
               \cup {ListV(<<x, l>>) : x \in V1s(u), l \in V0s(u)} \cup {TupleV(<<l, x>>) : x \in V1s(u), l \in V0s(u)}
               \cup {DictV(<<k, 31>>, <<x, l>>) : k \in Keys \ {31}, x \in V1s(u), l \in V0s(u)}
 ValU(u) == IF Deep THEN V3(u) ELSE V2(u)
